@@ -64,6 +64,8 @@ enum TwinKind {
     InVsOut,
     Schedule,
     FftSameBlock,
+    /// FixedIn with stepped ratio changes at its chunk boundaries vs FixedOut(chunk 1) switching at the same output frame
+    RatioSteps,
 }
 
 impl Chunking {
@@ -76,8 +78,8 @@ impl Chunking {
         let mut b = a.clone();
         let twin;
         if a.kind.is_async() {
-            let opts: &[TwinKind] = if a.kind.is_sinc() { &[TwinKind::ChunkSizes, TwinKind::InVsOut, TwinKind::Schedule] } else { &[TwinKind::ChunkSizes, TwinKind::InVsOut] };
-            twin = *rng.pick(opts);
+            let opts: &[TwinKind] = if a.kind.is_sinc() { &[TwinKind::ChunkSizes, TwinKind::InVsOut, TwinKind::Schedule, TwinKind::RatioSteps] } else { &[TwinKind::ChunkSizes, TwinKind::InVsOut, TwinKind::RatioSteps] };
+            twin = if a.max_rel > 1.05 { *rng.pick(opts) } else { *rng.pick(&opts[..opts.len() - 1]) };
             match twin {
                 TwinKind::ChunkSizes => b.chunk = gen_chunk(&mut rng, gp.max_chunk),
                 TwinKind::InVsOut => {
@@ -90,6 +92,19 @@ impl Chunking {
                     if rng.bool() {
                         b.chunk = gen_chunk(&mut rng, gp.max_chunk);
                     }
+                }
+                TwinKind::RatioSteps => {
+                    // a: the FixedIn variant, b: the FixedOut variant producing one frame per call
+                    a.kind = if a.kind.is_sinc() { Kind::SincIn } else { Kind::FastIn };
+                    if a.interp == Interp::Nearest {
+                        a.interp = Interp::Linear;
+                    }
+                    if a.degree == Deg::Nearest {
+                        a.degree = Deg::Linear;
+                    }
+                    b = a.clone();
+                    b.kind = if a.kind.is_sinc() { Kind::SincOut } else { Kind::FastOut };
+                    b.chunk = 1;
                 }
                 _ => {}
             }
@@ -166,6 +181,9 @@ impl Chunking {
             rb.step(&Op::SetRatio { v, ramp: false, rel: false });
         }
         let mut srng = Rng::new(sched_seed);
+        if twin == TwinKind::RatioSteps {
+            return self.ratio_steps(&mut cr, st, &a, &b, ra, rb, n_in.min(12_000), &mut srng);
+        }
         let oa = stream(&mut ra, n_in, None, 2_000_000);
         let ob = stream(&mut rb, n_in, if twin == TwinKind::Schedule { Some(&mut srng) } else { None }, 2_000_000);
         let (oa, ob) = match (oa, ob) {
@@ -288,6 +306,89 @@ impl Chunking {
             None
         };
         cr
+    }
+}
+
+impl Chunking {
+    #[allow(clippy::too_many_arguments)]
+    fn ratio_steps<T: Smp>(&self, cr: &mut CaseResult, st: &mut Stats, a: &Cfg, b: &Cfg, mut ra: Runner<T>, mut rb: Runner<T>, n_in: u64, rng: &mut Rng) -> CaseResult {
+        let op = exact_op();
+        // a: FixedIn; up to 4 stepped (non-ramped) ratio changes before random calls
+        let est_calls = (n_in as usize / a.chunk.max(1)).max(2);
+        let n_steps = rng.ui(1, 4);
+        let mut steps: Vec<(usize, f64)> = (0..n_steps).map(|_| (rng.ui(1, est_calls - 1), gen_in_range_ratio(rng, a))).collect();
+        steps.sort_by(|x, y| x.0.cmp(&y.0));
+        steps.dedup_by_key(|x| x.0);
+        let mut oa: Vec<T> = Vec::new();
+        let mut switch_at: Vec<(usize, f64)> = Vec::new(); // (output frames produced so far, new ratio)
+        let mut call = 0usize;
+        while ra.pos < n_in && call < 200_000 {
+            for (k, v) in &steps {
+                if *k == call {
+                    ra.step(&Op::SetRatio { v: *v, ramp: false, rel: false });
+                    switch_at.push((oa.len(), *v));
+                }
+            }
+            let so = ra.step(&op);
+            call += 1;
+            match so.res {
+                Ok(_) => oa.extend_from_slice(&so.out[0]),
+                Err(e) => {
+                    cr.inconclusive = Some(e);
+                    return std::mem::take(cr);
+                }
+            }
+        }
+        // b: FixedOut, one frame per call, switching at the same output frame
+        let mut ob: Vec<T> = Vec::with_capacity(oa.len());
+        let mut si = 0;
+        let mut guard = 0usize;
+        while ob.len() < oa.len() && guard < 3_000_000 {
+            while si < switch_at.len() && switch_at[si].0 == ob.len() {
+                rb.step(&Op::SetRatio { v: switch_at[si].1, ramp: false, rel: false });
+                si += 1;
+            }
+            let so = rb.step(&op);
+            guard += 1;
+            match so.res {
+                Ok(_) => ob.extend_from_slice(&so.out[0]),
+                Err(e) => {
+                    cr.inconclusive = Some(e);
+                    return std::mem::take(cr);
+                }
+            }
+        }
+        let n = oa.len().min(ob.len());
+        let r_min = a.lo();
+        let m_idx = (a.chunk as f64).max(1.0 / r_min) + 3.0 * a.flen() as f64 + 16.0 + a.max_rel / a.ratio;
+        let mut worst = 0.0f64;
+        let mut compared = 0u64;
+        for j in 0..n {
+            let (x, y) = (oa[j].f64(), ob[j].f64());
+            let tol = 16.0 * (j as f64 + 64.0) * ulp(m_idx) * (1.0 + 1.0 / r_min.min(1.0)) + 64.0 * T::EPS * 4.0;
+            let d = (x - y).abs();
+            compared += 1;
+            worst = worst.max(d / tol);
+            if d > tol {
+                cr.viols.push(Viol::new(
+                    "C05",
+                    "streams_differ_across_ratio_steps",
+                    format!("output frame {} ({} ratio step(s) at output frames {:?}): {:e} (FixedIn, chunk {}) vs {:e} (FixedOut, chunk 1), |diff| {:e} > tolerance {:e}", j, switch_at.len(), switch_at.iter().map(|s| s.0).collect::<Vec<_>>(), x, a.chunk, y, d, tol),
+                ));
+                break;
+            }
+        }
+        st.add("frames_compared", compared as f64);
+        st.add("twin.RatioSteps", 1.0);
+        st.add("ratio_steps_applied", switch_at.len() as f64);
+        st.add(&format!("cases.{}", a.kind.name()), 1.0);
+        st.max(&format!("worst_diff_over_tolerance.ratio_steps.{}", T::NAME), worst);
+        let _ = b;
+        if ra.findings.iter().chain(rb.findings.iter()).any(|f| f.prop == "C03") && cr.viols.is_empty() {
+            cr.inconclusive = Some("C03 event".into());
+        }
+        cr.class = if compared > 0 { Some(format!("{}|RatioSteps|{}|{}", T::NAME, a.class(), switch_at.len())) } else { None };
+        std::mem::take(cr)
     }
 }
 
